@@ -55,7 +55,7 @@ m = {
  }],
  'checks': checks,
  'not_applicable': na,
- 'notes': 'Every check reloads /repo from the working tree. An alarm is raised only for obligations listed in /verif/baseline/obligations.json (those discharged on the unchanged tree). See DESIGN.md.',
+ 'notes': 'Every check reloads /repo from the working tree. An alarm is raised for obligations listed in /verif/baseline/obligations.json (those discharged on the unchanged tree) that fail or can no longer be generated, and for proof obligations of code sites that did not exist when the baseline was taken and have a counterexample (unless their family already had an undischarged member on the unchanged tree). Undecided new obligations never alarm. See DESIGN.md §10.',
 }
 json.dump(m, open(V + '/MANIFEST.json', 'w'), indent=1)
 print('claimed:', [c['property_id'] for c in checks])
